@@ -21,7 +21,7 @@ Every event carries: e, res (class name of the exception raised by the public ca
 consumer received: the index of the read that returned exactly those bytes, 0 = bytes that match no read), reads
 (sizes asked of the file / 0 per scripted resumeProducing), fired (results delivered to a callback on the Deferred),
 closes (file.close() calls), unreg (consumer.unregisterProducer calls), pstop (stopProducing calls on the scripted
-producer), reg (registerProducer calls: "pull"/"push"), logged (failures reported to twisted.logger), p (does the scheduler hold a tick request afterwards).
+producer), reg (registerProducer calls: "pull"/"push"), logged (failures reported to twisted.logger), seq (the order of all those boundary calls), p (does the scheduler hold a tick request afterwards).
 """
 
 
@@ -58,7 +58,7 @@ def run_history(cfg, ops):
     pending = [None]
 
     def emit(e):
-        rec = {"e": e, "res": "ok", "w": [], "reads": [], "fired": [], "closes": 0, "unreg": 0, "pstop": 0, "reg": [], "logged": 0, "p": False}
+        rec = {"e": e, "res": "ok", "w": [], "reads": [], "fired": [], "closes": 0, "unreg": 0, "pstop": 0, "reg": [], "logged": 0, "p": False, "seq": []}
         ev.append(rec)
         cur[0] = rec
         return rec
@@ -93,6 +93,7 @@ def run_history(cfg, ops):
 
         def read(self, n=-1):
             cur[0]["reads"].append(n)
+            cur[0]["seq"].append("read")
             if self.closed:
                 raise ValueError("I/O operation on closed file")
             i = nread[0]
@@ -110,6 +111,7 @@ def run_history(cfg, ops):
 
         def close(self):
             cur[0]["closes"] += 1
+            cur[0]["seq"].append("close")
             self.closed = True
 
     class Consumer:
@@ -118,6 +120,7 @@ def run_history(cfg, ops):
 
         def registerProducer(self, producer, streaming):
             cur[0]["reg"].append("push" if streaming else "pull")
+            cur[0]["seq"].append("reg")
             self.producer = producer
             if kind == "fs" and not streaming:
                 self.p2p = _producer_helpers._PullToPush(producer, self)
@@ -125,6 +128,7 @@ def run_history(cfg, ops):
 
         def unregisterProducer(self):
             cur[0]["unreg"] += 1
+            cur[0]["seq"].append("unreg")
             nunreg[0] += 1
             if kind == "p2p":
                 if cfg["unreg"] == "raise":
@@ -135,6 +139,7 @@ def run_history(cfg, ops):
                 self.p2p.stopStreaming()
 
         def write(self, data):
+            cur[0]["seq"].append("write")
             for i, c in chunks.items():
                 if c == data:
                     cur[0]["w"].append(i)
@@ -146,6 +151,7 @@ def run_history(cfg, ops):
 
         def resumeProducing(self):
             cur[0]["reads"].append(0)
+            cur[0]["seq"].append("read")
             i = nread[0]
             nread[0] += 1
             k = plan[i] if i < len(plan) else 1
@@ -156,8 +162,10 @@ def run_history(cfg, ops):
 
         def stopProducing(self):
             cur[0]["pstop"] += 1
+            cur[0]["seq"].append("pstop")
 
     def fire(r):
+        cur[0]["seq"].append("fire")
         if isinstance(r, Failure):
             n = r.type.__name__
             cur[0]["fired"].append([{"PlannedIOError": "IOError"}.get(n, n), 0])
@@ -183,6 +191,7 @@ def run_history(cfg, ops):
     def observer(event):
         if event.get("log_failure") is not None and cur[0] is not None:
             cur[0]["logged"] += 1
+            cur[0]["seq"].append("log")
 
     globalLogPublisher.addObserver(observer)
     saved = _producer_helpers.cooperate
